@@ -88,7 +88,11 @@ lazy_static! {
 
         dt.iter().map(|x| x.to_diacritic()).collect()
     };
-    static ref CARDINALS_VEC: Vec<String> = CARDINALS_MAP.iter().map(|(k,_)| k.clone()).collect();
+    static ref CARDINALS_VEC: Vec<String> = {
+        let mut m: Vec<String> = CARDINALS_MAP.keys().cloned().collect();
+        m.sort();
+        m
+    };
     static ref CARDINALS_TRIE: Trie = {
         let mut m = Trie::new();
         CARDINALS_MAP.iter().for_each(|(k,_)| m.insert(k.as_str()));
